@@ -27,5 +27,8 @@ func controlsC08() []Control {
 		{Name: "survivor list starts with a nil entry", Expect: "R5", Mutate: replaceIn("(*tableEngine).settleGame", "alivePlayers := make([]*TablePlayerState, 0)", "alivePlayers := make([]*TablePlayerState, 1)", 0)},
 		{Name: "set-up operation drops participants before arming the gate", Expect: "R5", Mutate: replaceIn("(*tableEngine).SetUpTableGame", "te.ogm.Setup(gameCount, participants)", "expected := map[string]int{}\n\tfor id, idx := range participants {\n\t\tif te.table.FindPlayerIdx(id) != UnsetValue {\n\t\t\texpected[id] = idx\n\t\t}\n\t}\n\tte.ogm.Setup(gameCount, expected)", 0)},
 		{Name: "a reservation arms the continue step's time bank", Expect: "R3", Mutate: replaceIn("(*tableEngine).PlayerReserve", "te.emitEvent(\"PlayerReserve\", joinPlayer.PlayerID)", "te.emitEvent(\"PlayerReserve\", joinPlayer.PlayerID)\n\tte.tbForOpenGame.NewTask(time.Second, func(isCancelled bool) {})", 0)},
+		{Name: "table stops after a hand unless its time is up", Expect: "R3", Mutate: replaceIn("(*tableEngine).continueGame", "if ctMTTAutoGameOpenEnd {", "if !ctMTTAutoGameOpenEnd {", 0)},
+		{Name: "table time measured against the seat count", Expect: "R3", Mutate: replaceIn("(*tableEngine).continueGame", "time.Duration(te.table.Meta.MaxDuration)).Unix()", "time.Duration(te.table.Meta.TableMaxSeatCount)).Unix()", 0)},
+		{Name: "table counted as over before its end", Expect: "R3", Mutate: replaceIn("(*tableEngine).continueGame", "time.Now().Unix() > tableEndAt", "time.Now().Unix() < tableEndAt", 0)},
 	}
 }
